@@ -5,6 +5,8 @@ import "fmt"
 // scenario i: profile by index (every run covers every profile), actions by the scenario's PRNG.
 func (h *H) scenario(i int) {
 	if i < len(scripted) {
+		// real ts-store shards behind the nodes, except where the scenario stops inside a flush
+		h.real = scripted[i].name != "flush-kill"
 		if scripted[i].nodes > 0 {
 			h.n = scripted[i].nodes
 		}
@@ -21,6 +23,12 @@ func (h *H) scenario(i int) {
 		return
 	}
 	i -= len(scripted)
+	h.real = !h.r.Chance(25)
+	if h.real {
+		h.c.Count("store-real-shard")
+	} else {
+		h.c.Count("store-stand-in")
+	}
 	profs := []string{"clean", "clean", "bigfile", "clean", "multishard", "applyfail", "forced", "bigfile", "race"}
 	h.prof = profs[i%len(profs)]
 	h.c.Count("profile-" + h.prof)
@@ -74,6 +82,9 @@ func (h *H) scenario(i int) {
 			n := h.anyUp()
 			sh := 1 + h.r.Intn(shards)
 			h.actFlushBegin(n, sh)
+			if h.real {
+				break // the real shard's flush is one action
+			}
 			if canLose && h.r.Chance(20) && n != h.leader {
 				h.actKill(n)
 				killed = killed || acked
